@@ -86,6 +86,7 @@ func runTransport(r *sim.Run) {
 	// a short real session
 	var frames [][]byte
 	var names []string
+	discr := map[int][]int{} // frame index -> offsets (in the frame) of union tags / option flags / boolean octets
 	ss := fuzz.SetState{Header: ru.g.header, State: ru.g.kvs, Ancestry: types.Ancestry{{Slot: 1, HeaderHash: gh}}}
 	frames, names = append(frames, frameOf(&fuzz.Message{Type: fuzz.MessageType_SetState, SetState: &ss})), append(names, "SetState")
 	head := ru.gen
@@ -107,6 +108,7 @@ func runTransport(r *sim.Run) {
 		}
 		ib := fuzz.ImportBlock(b)
 		frames, names = append(frames, frameOf(&fuzz.Message{Type: fuzz.MessageType_ImportBlock, ImportBlock: &ib})), append(names, "ImportBlock")
+		discr[len(frames)-1] = discriminatorOffsets(b)
 		head = cb
 	}
 	gs := fuzz.GetState(head.hash)
@@ -162,7 +164,21 @@ func runTransport(r *sim.Run) {
 			}
 			return c[t.Choose(len(c), "small_pos")]
 		}
-		switch t.Pick([]int{5, 3, 3, 4, 3, 2, 2, 4, 4, 3}, "corruption") {
+		switch t.Pick([]int{5, 3, 3, 4, 3, 2, 2, 4, 4, 3, 4}, "corruption") {
+		case 10:
+			kind = "discriminator-sweep"
+			// a union tag, option flag or boolean octet of the structure (its offset is known: the harness built the
+			// block) - or, failing that, any small octet - set to every small value in turn and to the extremes
+			p := smallPos()
+			if offs := discr[fi]; len(offs) > 0 && t.Prob(3, 4, "known_discriminator") {
+				p = offs[t.Choose(len(offs), "which_discriminator")]
+				r.Count("fault:stream_discriminator_at_known_offset", 1)
+			}
+			if v := t.Choose(22, "discriminator_value"); v < 18 {
+				data[p] = byte(v)
+			} else {
+				data[p] = []byte{0x7f, 0x80, 0xfe, 0xff}[v-18]
+			}
 		case 0:
 			kind = "bit-flip"
 			for k := 0; k <= t.Choose(3, "nflips"); k++ {
@@ -422,4 +438,90 @@ func readOne(rd io.Reader) (panicked bool, perr string, err error) {
 	var m fuzz.Message
 	_, err = m.ReadFrom(rd)
 	return
+}
+
+
+// discriminatorOffsets finds, by differential encoding, where the one-octet discriminators of a block sit in its
+// ImportBlock frame: for each of them a twin of the block is encoded in which only that discriminator has another
+// (valid) value; the first octet in which the two encodings differ is the discriminator. Found: the execution-result
+// tag of every work result, the presence flags of the epoch mark and the tickets mark, the vote octets of judgements
+// and faults.
+func discriminatorOffsets(b types.Block) []int {
+	base, err := types.NewEncoder().Encode(&b)
+	if err != nil {
+		return nil
+	}
+	var out []int
+	try := func(mut func(x *types.Block)) {
+		x := cloneBlock(b)
+		mut(&x)
+		enc, err := types.NewEncoder().Encode(&x)
+		if err != nil {
+			return
+		}
+		n := len(base)
+		if len(enc) < n {
+			n = len(enc)
+		}
+		for i := 0; i < n; i++ {
+			if enc[i] != base[i] {
+				out = append(out, 5+i) // 4 octets of frame length, 1 of message type
+				return
+			}
+		}
+	}
+	for gi := range b.Extrinsic.Guarantees {
+		for ri := range b.Extrinsic.Guarantees[gi].Report.Results {
+			gi, ri := gi, ri
+			try(func(x *types.Block) {
+				g := x.Extrinsic.Guarantees[gi]
+				rs := append([]types.WorkResult(nil), g.Report.Results...)
+				if rs[ri].Result.Type == types.WorkExecResultOk {
+					rs[ri].Result = types.WorkExecResult{Type: types.WorkExecResultPanic}
+				} else {
+					rs[ri].Result = types.WorkExecResult{Type: types.WorkExecResultOk, Data: []byte{}}
+				}
+				g.Report.Results = rs
+				gs := append(types.GuaranteesExtrinsic(nil), x.Extrinsic.Guarantees...)
+				gs[gi] = g
+				x.Extrinsic.Guarantees = gs
+			})
+		}
+	}
+	try(func(x *types.Block) {
+		if x.Header.EpochMark == nil {
+			x.Header.EpochMark = &types.EpochMark{Validators: make([]types.EpochMarkValidatorKeys, types.ValidatorsCount)}
+		} else {
+			x.Header.EpochMark = nil
+		}
+	})
+	try(func(x *types.Block) {
+		if x.Header.TicketsMark == nil {
+			tm := make(types.TicketsMark, types.EpochLength)
+			x.Header.TicketsMark = &tm
+		} else {
+			x.Header.TicketsMark = nil
+		}
+	})
+	for vi := range b.Extrinsic.Disputes.Verdicts {
+		for ji := range b.Extrinsic.Disputes.Verdicts[vi].Votes {
+			vi, ji := vi, ji
+			try(func(x *types.Block) {
+				vs := append([]types.Verdict(nil), x.Extrinsic.Disputes.Verdicts...)
+				js := append([]types.Judgement(nil), vs[vi].Votes...)
+				js[ji].Vote = !js[ji].Vote
+				vs[vi].Votes = js
+				x.Extrinsic.Disputes.Verdicts = vs
+			})
+		}
+	}
+	for fi := range b.Extrinsic.Disputes.Faults {
+		fi := fi
+		try(func(x *types.Block) {
+			fs := append([]types.Fault(nil), x.Extrinsic.Disputes.Faults...)
+			fs[fi].Vote = !fs[fi].Vote
+			x.Extrinsic.Disputes.Faults = fs
+		})
+	}
+	return out
 }
